@@ -120,7 +120,8 @@ class Compiler:
                                 old_addr = addr
                                 def fn():
                                     old_addr_value = wait(old_addr)
-                                    new_addr_value = get_as_int(state, "link address", state["insn"], insn.value, bitness=16, unsigned=False)
+                                    # A negative target must not wrap around to 2**16 - x and look like a forward skip
+                                    new_addr_value = get_as_int(state, "link address", state["insn"], insn.value, bitness=16, unsigned=True)
                                     length = new_addr_value - old_addr_value
                                     if length < 0:
                                         reports.error(
